@@ -302,7 +302,13 @@ class SymSeq(Model):
             j = self.fresh_index(I, "j")
             I.P.ghost.setdefault("generic_indices", []).append(j)
             I.assign_target(node.target, self.at(I, j), fr)
-            I.exec_block(node.body, fr)
+            from pyvc.interp import _Break, _Continue
+            try:
+                I.exec_block(node.body, fr)
+            except _Continue:
+                pass  # the rest of this iteration is skipped; the other iterations are independent of it
+            except _Break:
+                raise Unsupported("break in a loop handled by the independent-iterations rule (the iterations after it depend on it)")
             return
         summarise_loop(I, self, node, fr)
 
